@@ -47,3 +47,16 @@ def classify(c, r):
     p = "p-ok" if not kv.get("p", "err").startswith("err") else "p-err"
     ch = "repaired" if kv.get("p") != kv.get("f") else "same"
     return f"R {'fl' if t[1] != 'n' else 'nofl'} {s} {p} {ch}"
+
+
+import re as _re
+
+
+def equal(a, b):
+    """C18 speaks about headers strict parsing accepts and about repairs. Which error a header gets that is invalid in
+    two places at once is not part of it: `err:<Variant>:<value>` is compared as `err` (on both sides, in every field);
+    everything else is compared exactly."""
+    if a == b:
+        return True
+    canon = lambda s: _re.sub(r"=err:[A-Za-z0-9]+:\d+", "=err", s)
+    return canon(a) == canon(b)
